@@ -17,6 +17,7 @@ pub mod c16;
 pub mod c17;
 pub mod c18;
 pub mod c19;
+pub mod c20;
 
 pub fn registry() -> Vec<(&'static str, fn(&Report), Option<fn(&Value) -> String>)> {
     vec![
@@ -36,5 +37,6 @@ pub fn registry() -> Vec<(&'static str, fn(&Report), Option<fn(&Value) -> String
         ("C17", c17::run, Some(c17::replay)),
         ("C18", c18::run, Some(c18::replay)),
         ("C19", c19::run, None),
+        ("C20", c20::run, None),
     ]
 }
